@@ -76,7 +76,11 @@ fn threads() -> usize {
 
 fn run_hx(prop: &str, tier: &str) -> i32 {
     let start = std::time::Instant::now();
-    let scs = registry::scenarios(prop, tier);
+    let mut scs = registry::scenarios(prop, tier);
+    if let Ok(only) = std::env::var("VERIF_ONLY") {
+        // debugging aid: run only the scenarios whose name contains the given text
+        scs.retain(|s| s.name().contains(&only));
+    }
     if scs.is_empty() {
         eprintln!("no hx scenarios for {prop} {tier}");
         return 2;
